@@ -710,8 +710,10 @@ int main(int argc, char **argv)
 			break;
 		}
 		xs("cases_that_killed_the_process");
-		if (++restarts > 2000) break;
 		scase = sh->cur + 1;
+		/* every dead child is a sanitizer report, i.e. a violation already; when more than a quarter of the cases
+		 * kill the process the verdict cannot change any more and each further crash costs seconds of symbolisation */
+		if (++restarts >= 30 && restarts * 4 > scase - first) { xs("stopped_crash_rate_over_25_percent"); break; }
 	}
 	{ int i; long k; for (i = 0; i < SH_MAXSTAT && sh->stats[i].name[0]; i++) vh_stat_add(sh->stats[i].name, sh->stats[i].n);
 	  for (k = 0; k < sh->nh; k++) vh_distinct(sh->hashes[k]); }
